@@ -3,6 +3,7 @@ import itertools
 import zlib
 
 from common import S, run_batch
+from common import corr_kind
 from world import base_case, run_cases, describe, out_of_model, agree
 
 GEN = ['GPolicy.v', 'GChecks.v', 'GParser.v']
@@ -80,6 +81,15 @@ def run(run, binfo):
                     # deny is False, or the not-authorized exception when the caller asked for one
                     c['do_raise'] = (len(cases) // 3) % 2 == 1
                     cases.append(c)
+    # a policy file that defines nothing, in every spelling: an empty rule set, hence deny (never an error)
+    for txt in ('', '{}', '# only a comment\n', '---\n', 'null', '~\n', '--- {}\n', '\n\n', '# c\n---\n# d\n'):
+        for d in defaults:
+            for q in ('a', 'default', 'zz'):
+                for dr in (False, True):
+                    c = base_case(rules={}, default=d, rule=('name', q), creds={'roles': ['x']}, do_raise=dr)
+                    c['from_file'] = True
+                    c['file_text'] = txt
+                    cases.append(c)
     run.count('cases', len(cases))
     bad_corr = []
     for c, (mres, mtr, ires, itr) in zip(cases, run_cases(cases)):
@@ -104,7 +114,7 @@ def run(run, binfo):
     if bad_corr and not run.violations:
         c, m, i = bad_corr[0]
         run.violation('correspondence:S4', 'model and implementation disagree on enforce',
-                      {'kind': 'broken-obligation', 'obligation': 'correspondence suite S4 (enforce)',
+                      {'kind': corr_kind(m), 'oracle': 'the Coq model, for which the property is proved', 'obligation': 'correspondence suite S4 (enforce)',
                        'input': describe(c), 'model': m, 'observed': i, 'count': len(bad_corr)})
     run.rule = ('complete table: every rule set over %r with bodies %r (or absent) x %d default-rule configurations '
                 '(unset, defined/undefined name, check objects of several classes, dict, via policy_default_rule option; rules given by set_rules or loaded from a policy directory with no policy file) x queried names x '
